@@ -18,7 +18,7 @@
                          types without **struct                                   *)
 From Coq Require Import String.
 From Coq Require Import List NArith ZArith.
-From Dials Require Import Base.Outcome Base.Runes Reflect.Ty Stack.Overlay Text.ParseText
+From Dials Require Import Base.Outcome Base.Runes Reflect.Ty Stack.Overlay Text.ParseInt Text.ParseText
   Sources.Flatten Sources.FlattenSpec Sources.Env Sources.EnvSpec Sources.EnvProofs Sources.EnvFacts
   Reflect.Ptrify Text.CaseConv Text.GoCamelSpec Sources.EnvGuards.
 Import ListNotations.
@@ -52,14 +52,22 @@ Theorem env_sets_exactly_present : forall prefix pfs env vs,
     Forall2 (fun lv x => is_set x = true <-> lookup_env env (snd lv) <> None) plan (leaves_of pfs vs).
 Proof. exact env_sets_exactly_present_l. Qed.
 
-(* A set leaf holds the parsed value of its own variable at the leaf type. *)
+(* A set leaf holds the parsed value of its own variable at the leaf type:
+   cast is parse.String at the pointed-to type (wrapped in a pointer) for
+   scalars, at the type itself for slices and maps (env_cast_is_parse). *)
 Theorem env_value_parsed : forall prefix pfs env vs,
   env_supported pfs = true -> env_value prefix pfs env = Ok vs ->
   exists plan, env_plan prefix pfs = Ok plan /\
     Forall2 (fun lv x => forall s, lookup_env env (snd lv) = Some s ->
-               exists e y, lf_ty (fst lv) = TPtr e /\ x = VPtr y /\ parse_text e s = Ok y)
+               cast (lf_ty (fst lv)) (Some s) = Ok x)
             plan (leaves_of pfs vs).
 Proof. exact env_value_parsed_l. Qed.
+
+Theorem env_cast_is_parse : forall t s,
+  cast (TPtr t) (Some s) = omap VPtr (parse_text t s) /\
+  (forall e n, cast (TSlice e n) (Some s) = parse_text (TSlice e n) s) /\
+  (forall k e n, cast (TMap k e n) (Some s) = parse_text (TMap k e n) s).
+Proof. exact cast_char. Qed.
 
 (* Frame: the whole outcome depends only on the bindings of the variables
    named by the leaves - for any type and any two environments. *)
@@ -86,17 +94,22 @@ Theorem env_bad_value_is_error : forall prefix pfs env plan l var s,
   forall vs, env_value prefix pfs env <> Ok vs.
 Proof. exact env_bad_value_is_error_l. Qed.
 
-(* ... and "parses" includes the range check of the concrete width: a value
-   is never truncated. *)
+(* ... and "parses" is the model of package parse (property C15): for an
+   integer leaf of any width and any declared or predeclared type of that
+   kind, a value is returned exactly when the text is a Go integer literal
+   whose VALUE lies in the leaf's range - never a wrapped, truncated or
+   saturated value (corollaries of C15's int_never_wraps / uint_never_wraps). *)
 Theorem env_int_never_truncated : forall w name s v,
-  parse_text (TBasic (KInt w) name) s = Ok v -> str_eqb name duration_name = false ->
-  exists z, v = VInt z /\ in_int_range w z = true.
-Proof. exact parse_text_int_in_range. Qed.
+  str_eqb name duration_name = false ->
+  (parse_text (TBasic (KInt w) name) s = Ok v <->
+   exists z, v = VInt z /\ lit_value s = Some z /\ in_srange (sw_of w) z = true).
+Proof. exact parse_text_int_spec. Qed.
 
 Theorem env_uint_never_truncated : forall w name s v,
-  parse_text (TBasic (KUint w) name) s = Ok v -> str_eqb name duration_name = false ->
-  exists n, v = VInt (Z.of_N n) /\ in_uint_range w n = true.
-Proof. exact parse_text_uint_in_range. Qed.
+  str_eqb name duration_name = false -> (w =? 1)%N = false ->
+  (parse_text (TBasic (KUint w) name) s = Ok v <->
+   exists n, v = VInt (Z.of_N n) /\ lit_uvalue s = Some n /\ in_urange (uw_of w) n = true).
+Proof. exact parse_text_uint_spec. Qed.
 
 (* The side conditions hold for Pointerify's output on every config type
    without interface fields, **struct fields and alias tags ... *)
@@ -118,6 +131,7 @@ Print Assumptions env_name_guard_for_ordinary_words.
 Print Assumptions env_name_refuted.
 Print Assumptions env_sets_exactly_present.
 Print Assumptions env_value_parsed.
+Print Assumptions env_cast_is_parse.
 Print Assumptions env_frame.
 Print Assumptions env_frame_decoys.
 Print Assumptions env_bad_value_is_error.
